@@ -1896,17 +1896,22 @@ func genUnitGrid(r *Rng, forceExact bool) (*profile.Profile, string, string) {
 	}
 	m := int64(r.Intn(6)) - 2 // base multiple, also negative and zero
 	var vals []int64
-	exact := num > den && (forceExact || r.Chance(60))
+	exact := num > den && (forceExact || r.Chance(30))
 	if exact {
 		// EXACT multiples k·unit of the coarser filter unit, k = 1..64: converting them must give the
 		// exact number k (the filter compares with ==, >=, <=), whatever the size of the unit ratio
 		m = 1 + int64(r.Intn(64))
+		sign := int64(1)
+		if r.Chance(30) {
+			sign, m = -1, -m
+		}
 		pair += "-exact-multiples"
 		vals = []int64{m * step, (m - 1) * step, (m + 1) * step, (m + 2) * step}
-		for k := 0; k < 5; k++ {
-			vals = append(vals, (1+int64(r.Intn(64)))*step)
+		for k := 0; k < 4; k++ {
+			vals = append(vals, sign*(1+int64(r.Intn(64)))*step)
 		}
-		vals = append(vals, m*step+1, m*step-1)
+		// and the non-multiples next to the bound: just below, just above, halfway on both sides
+		vals = append(vals, m*step+1, m*step-1, m*step+step/2, m*step-step/2)
 	} else if num >= den { // filter coarser or equal: label values around multiples of `step`
 		b := toLabel(m)
 		vals = []int64{b, b - 1, b + 1, b + step/2, b + step - 1, b + step, b - step, b + 2*step, b - step/2}
